@@ -234,6 +234,11 @@ class SendPongInternal(Contract):
         if len(w) == 1:
             d = rfc6455.decode_one(w[0])
             out += [(n, f, ('C14',)) for n, f in payload_facts(w[0], d, 10, 0, st.get(a.event, 'data'))]
+        if ip.reading == 'body':
+            from pyvc.contracts import calls_since
+            cs = calls_since(ip, old, 'WebSocket.send_pong')
+            out.append(('send_pong-is-called-exactly-once-with-the-pings-payload',
+                        BoolVal(len(cs) == 1 and cs[0].data is st.get(a.event, 'data')), ('C14',)))
         return out
 
 
